@@ -264,8 +264,10 @@ def shard_skeletons(ctx, shard, nshards, n):
 
 def mention_strategy():
     ident = st.text('abcxyz-_1', min_size=1, max_size=4).filter(lambda s: not s[0].isdigit() and s[0] not in '-')
+    # class names may begin with `-`/`--` (BEM-style element and modifier names); ids and first characters of names may not
+    cls = st.one_of(ident, ident, st.builds(lambda d, v: d + v, st.sampled_from(['-', '--', '_']), st.text('abcxyz1', min_size=1, max_size=3)))
     return st.one_of(
-        st.builds(lambda v: ['.', [v]], ident), st.builds(lambda v: ['.', [v]], ident),
+        st.builds(lambda v: ['.', [v]], cls), st.builds(lambda v: ['.', [v]], cls),
         st.builds(lambda v: ['#', [v]], ident),
         st.builds(lambda n, v: ['a', n, 'raw', [v], False], st.sampled_from(['t', 'title', 'data-a']), st.text('abc123', min_size=1, max_size=3)),
         st.builds(lambda n, v: ['a', n, 'dq', [v] if v else [], False], st.sampled_from(['u', 'title']), st.text('abc 12', max_size=5)),
